@@ -243,6 +243,12 @@ def _month_tabulate(ctx, region: set, who: str, site: str) -> None:
     undecided = 0
     from types import SimpleNamespace as NS
     greg = lambda y: int(y % 4 == 0 and (y % 100 != 0 or y % 400 == 0))      # noqa: E731 - the rule FORMULA/SIBLING.is_leap establish
+    texts = " ".join([c for conds, d, mo in region for c, _ in conds] + [x for _, d, mo in region for x in (d, mo)])
+    # the month and year of the start point matter only when the branch reads them (it should not): then earlier years / months too
+    wide = "A.year" in texts or "A.month" in texts
+
+    def starts(year):
+        return [(year, 1), (year - 1, 1), (year - 1, 7), (year - 3, 2)] if wide else [(year, 1)]
     try:
         for year in (2023, 2024, 2025):          # (leap(y), leap(y-1)) = (0,0), (1,0), (0,1)
             for month in range(1, 13):
@@ -256,26 +262,27 @@ def _month_tabulate(ctx, region: set, who: str, site: str) -> None:
                             day = b - a - beta
                             if day >= 0:
                                 continue
-                            env = {"A": NS(day=a), "B": NS(day=b, month=month, year=year), "DAY": day, "MONTH": 0, "DAYS_PER_MONTHS": dpm,
-                                   "is_leap": greg}
-                            live = [p for p in paths if all(bool(c(env)) == pol for c, pol in p[0])]
-                            n += 1
-                            if len(live) != 1:
-                                undecided += 1
-                                continue
-                            dd, mm = live[0][1](env), live[0][2](env)
-                            if mm == 0:
-                                ok = min(a, dim) + dd + beta == b
-                            elif mm == -1:
-                                ok = min(a, dilm) + dd + beta == dilm + b
-                            else:
-                                ok = False
-                            ok = ok and 0 <= dd <= 30
-                            if not ok:
-                                bad += 1
-                                if first is None:
-                                    first = (f"start day {a}, end {year}-{month:02d}-{b:02d}, end time of day "
-                                             f"{'earlier' if beta else 'not earlier'} than the start's: reported month change {mm}, days {dd}")
+                            for ay, am in starts(year):
+                                env = {"A": NS(day=a, year=ay, month=am), "B": NS(day=b, month=month, year=year), "DAY": day, "MONTH": 0,
+                                       "DAYS_PER_MONTHS": dpm, "is_leap": greg}
+                                live = [p for p in paths if all(bool(c(env)) == pol for c, pol in p[0])]
+                                n += 1
+                                if len(live) != 1:
+                                    undecided += 1
+                                    continue
+                                dd, mm = live[0][1](env), live[0][2](env)
+                                if mm == 0:
+                                    ok = min(a, dim) + dd + beta == b
+                                elif mm == -1:
+                                    ok = min(a, dilm) + dd + beta == dilm + b
+                                else:
+                                    ok = False
+                                ok = ok and 0 <= dd <= 30
+                                if not ok:
+                                    bad += 1
+                                    if first is None:
+                                        first = (f"start day {a}" + (f" (start point in year {ay})" if len(starts(year)) > 1 else "") + f", end {year}-{month:02d}-{b:02d}, end time of day "
+                                                 f"{'earlier' if beta else 'not earlier'} than the start's: reported month change {mm}, days {dd}")
     except (core.Unsupported, KeyError, IndexError, SyntaxError, AttributeError, NameError, TypeError) as e:
         ctx.unverified("MONTHBRANCH.rebuild", f"{who}:precise_diff/day<0", str(e), site)
         return
@@ -301,6 +308,9 @@ def _month_agree_tabulate(ctx, py_region: set, rs_region: set) -> bool | None:
             comp.append([([(_mb_compile(c), pol) for c, pol in conds], _mb_compile(d), _mb_compile(mo)) for conds, d, mo in region])
         n = diff = 0
         first = None
+        texts = " ".join([c for region in (py_region, rs_region) for conds, d, mo in region for c, _ in conds]
+                         + [x for region in (py_region, rs_region) for _, d, mo in region for x in (d, mo)])
+        wide = "A.year" in texts or "A.month" in texts
         for year in (2023, 2024, 2025):
             for month in range(1, 13):
                 dim = dpm[greg(year)][month]
@@ -310,17 +320,20 @@ def _month_agree_tabulate(ctx, py_region: set, rs_region: set) -> bool | None:
                             day = b - a - beta
                             if day >= 0:
                                 continue
-                            env = {"A": NS(day=a), "B": NS(day=b, month=month, year=year), "DAY": day, "MONTH": 0, "DAYS_PER_MONTHS": dpm, "is_leap": greg}
-                            res = []
-                            for paths in comp:
-                                live = [p for p in paths if all(bool(c(env)) == pol for c, pol in p[0])]
-                                if len(live) != 1:
-                                    return None
-                                res.append((live[0][1](env), live[0][2](env)))
-                            n += 1
-                            if res[0] != res[1]:
-                                diff += 1
-                                first = first or f"start day {a}, end {year}-{month:02d}-{b:02d}, borrow {beta}: Python (days, months) {res[0]} vs Rust {res[1]}"
+                            for ay, am in ([(year, 1), (year - 1, 1), (year - 1, 7), (year - 3, 2)] if wide else [(year, 1)]):
+                                env = {"A": NS(day=a, year=ay, month=am), "B": NS(day=b, month=month, year=year), "DAY": day, "MONTH": 0, "DAYS_PER_MONTHS": dpm,
+                                       "is_leap": greg}
+                                res = []
+                                for paths in comp:
+                                    live = [p for p in paths if all(bool(c(env)) == pol for c, pol in p[0])]
+                                    if len(live) != 1:
+                                        return None
+                                    res.append((live[0][1](env), live[0][2](env)))
+                                n += 1
+                                if res[0] != res[1]:
+                                    diff += 1
+                                    first = first or (f"start day {a} (start point in year {ay}), end {year}-{month:02d}-{b:02d}, borrow {beta}: "
+                                                      f"Python (days, months) {res[0]} vs Rust {res[1]}")
     except (core.Unsupported, KeyError, IndexError, SyntaxError, AttributeError, NameError, TypeError):
         return None
     ctx.ob("MONTHBRANCH.agree", "py-vs-rs:precise_diff/day<0", diff == 0,
